@@ -832,6 +832,7 @@ struct Target {
 	std::vector<std::pair<size_t, size_t> > ranges;     // BINARY: offsets that get the byte catalogue (empty = all)
 	std::string delims;
 	size_t stride;                                      // use every stride-th mutation only (targets whose every call is very expensive)
+	std::function<void(const std::function<void(const Mutation &)> &)> custom;   // own enumerator (OpenPGP packet catalogue)
 	bool heavy;                                         // the library allocates TMCG_MAX_STACK_CHARS (671 MB) per call: under ASan each call costs seconds
 	Target() : expect_accept(true), mode(TEXT), delims("\n|^"), stride(1), heavy(false) {}
 };
@@ -961,6 +962,7 @@ struct Runner {
 		Target T = T0;
 		if (T.heavy && heavy_mode == "thin") T.stride = std::max(T.stride, heavy_stride);
 		if (T.heavy) batch_cases_now = 16; else batch_cases_now = batch_cases;
+		F.cpu_s = (T.heavy && C12_ASAN) ? 40 : 10;
 		// the seed itself (sanity: a valid export / transcript must be accepted, else the harness is wrong)
 		std::string cid0 = T.name + "/" + T.seedname + "/seed";
 		bool my_seed = R.args.only.empty() ? (fnv(cid0) % R.args.nshards) == R.args.shard : R.args.only == cid0;
@@ -1005,7 +1007,9 @@ struct Runner {
 				bytes = 0;
 			}
 		};
-		if (T.mode == Target::TEXT)
+		if (T.custom)
+			T.custom(one);
+		else if (T.mode == Target::TEXT)
 			T.cat.text(T.seed, one, T.delims);
 		else if (T.mode == Target::BYTES_TEXT)
 			T.cat.bytes(T.seed, one, NULL, false);
